@@ -281,3 +281,103 @@ class ReadMeter:
 
         streams.StreamReader._read_nowait_chunk = self._orig_chunk  # type: ignore[method-assign]
         aiohttp.ClientResponse.start = self._orig_start  # type: ignore[method-assign]
+
+
+class InflateMeter:
+    """Counts the decoded bytes the inflaters hand to `vgi_rpc._codec` during a fetch, at the library boundary
+    (observation only): one record per decompressor object — bytes produced, number of calls, largest single answer.
+
+    `_codec` uses the module-global `zlib` (``zlib.decompressobj``) and looks `zstandard.ZstdDecompressor` up on the
+    `zstandard` module inside its functions; both are wrapped by thin forwarding proxies while installed."""
+
+    def __init__(self) -> None:
+        import zlib as real_zlib
+
+        import zstandard
+
+        import vgi_rpc._codec as codec
+
+        self.records: list[dict[str, Any]] = []
+        self._codec = codec
+        self._zstandard = zstandard
+        self._orig_zlib = codec.zlib
+        self._orig_zd = zstandard.ZstdDecompressor
+        meter = self
+
+        def note(rec: dict[str, Any], out: Any) -> Any:
+            n = len(out) if out is not None else 0
+            rec["bytes"] += n
+            rec["calls"] += 1
+            rec["largest"] = max(rec["largest"], n)
+            return out
+
+        class _Obj:
+            def __init__(self, inner: Any, rec: dict[str, Any]) -> None:
+                self._i = inner
+                self._r = rec
+
+            def decompress(self, *a: Any, **k: Any) -> bytes:
+                return note(self._r, self._i.decompress(*a, **k))
+
+            def flush(self, *a: Any, **k: Any) -> bytes:
+                return note(self._r, self._i.flush(*a, **k))
+
+            def __getattr__(self, name: str) -> Any:
+                return getattr(self._i, name)
+
+        class _Zlib:
+            def decompressobj(self, *a: Any, **k: Any) -> Any:
+                rec = {"codec": "gzip", "bytes": 0, "calls": 0, "largest": 0}
+                meter.records.append(rec)
+                return _Obj(real_zlib.decompressobj(*a, **k), rec)
+
+            def __getattr__(self, name: str) -> Any:
+                return getattr(real_zlib, name)
+
+        class _Reader:
+            def __init__(self, inner: Any, rec: dict[str, Any]) -> None:
+                self._i = inner
+                self._r = rec
+
+            def __enter__(self) -> "_Reader":
+                self._i.__enter__()
+                return self
+
+            def __exit__(self, *a: Any) -> Any:
+                return self._i.__exit__(*a)
+
+            def read(self, *a: Any, **k: Any) -> bytes:
+                return note(self._r, self._i.read(*a, **k))
+
+            def __getattr__(self, name: str) -> Any:
+                return getattr(self._i, name)
+
+        orig_zd = self._orig_zd
+
+        class _ZD:
+            def __init__(self, *a: Any, **k: Any) -> None:
+                self._i = orig_zd(*a, **k)
+                self._r = {"codec": "zstd", "bytes": 0, "calls": 0, "largest": 0}
+                meter.records.append(self._r)
+
+            def decompress(self, *a: Any, **k: Any) -> bytes:
+                return note(self._r, self._i.decompress(*a, **k))
+
+            def stream_reader(self, *a: Any, **k: Any) -> Any:
+                return _Reader(self._i.stream_reader(*a, **k), self._r)
+
+            def __getattr__(self, name: str) -> Any:
+                return getattr(self._i, name)
+
+        codec.zlib = _Zlib()  # type: ignore[assignment]
+        zstandard.ZstdDecompressor = _ZD  # type: ignore[misc,assignment]
+
+    def reset(self) -> None:
+        self.records.clear()
+
+    def snapshot(self) -> list[dict[str, Any]]:
+        return [dict(r) for r in self.records]
+
+    def uninstall(self) -> None:
+        self._codec.zlib = self._orig_zlib  # type: ignore[assignment]
+        self._zstandard.ZstdDecompressor = self._orig_zd  # type: ignore[misc]
